@@ -355,7 +355,56 @@ def r18_3(ctx: Ctx):
                   f'matcon has shape {g["matcon"].shape}, expected (10, 45)', key=f'{rid}::matcon')
 
 
+def r18_4(ctx: Ctx):
+    rid = 'R18.4'
+    ctx.rule(rid, 'GKLS: every coordinate of the global minimiser that can leave the box is mirrored under a '
+                  'two-sided boundary test; the tests of all coordinates agree (sibling agreement)')
+    g = ctx.ix.find_cls('GKLSFunction')
+    if g is None:
+        return
+    fn = g.methods.get('GKLS_arg_generate')
+    if fn is None:
+        raise AnalysisError('GKLSFunction.GKLS_arg_generate vanished')
+
+    def is_minimiser_store(t) -> bool:
+        # self.GKLS_minima.local_min[1][...]
+        return isinstance(t, ast.Subscript) and isinstance(t.value, ast.Subscript) and \
+            isinstance(t.value.value, ast.Attribute) and t.value.value.attr == 'local_min' and \
+            isinstance(t.value.slice, ast.Constant) and t.value.slice.value == 1
+
+    def shape(test) -> frozenset:
+        out = set()
+        for c in ast.walk(test):
+            if isinstance(c, ast.Compare) and len(c.ops) == 1:
+                names = {a.attr for a in ast.walk(c.comparators[0]) if isinstance(a, ast.Attribute)} | \
+                        {a.attr for a in ast.walk(c.left) if isinstance(a, ast.Attribute)}
+                side = 'right' if any('right' in x for x in names) else ('left' if any('left' in x for x in names) else '?')
+                op = type(c.ops[0]).__name__
+                lhs_is_min = any(is_minimiser_store(x) for x in ast.walk(c.left))
+                if not lhs_is_min:
+                    op = {'Gt': 'Lt', 'Lt': 'Gt', 'GtE': 'LtE', 'LtE': 'GtE'}.get(op, op)
+                out.add((op.replace('E', ''), side))
+        joiner = 'or' if isinstance(test, ast.BoolOp) and isinstance(test.op, ast.Or) else \
+            ('and' if isinstance(test, ast.BoolOp) else 'single')
+        return frozenset(out | {('join', joiner)})
+    sib = []
+    for n in ast.walk(fn.node):
+        if isinstance(n, ast.If) and any(isinstance(st, ast.Assign) and any(is_minimiser_store(t) for t in st.targets)
+                                         for st in n.body):
+            sib.append((n, shape(n.test)))
+    ctx.floor(rid, 'mirror guards of the global minimiser', len(sib), 3)
+    want = frozenset({('Gt', 'right'), ('Lt', 'left'), ('join', 'or')})
+    for n, sh in sib:
+        ctx.check(sh == want, rid, fn.short, fn.loc(n),
+                  'the coordinate is mirrored when it is beyond the right OR the left boundary',
+                  f'the mirror test of a global-minimiser coordinate is {sorted(sh)}; its siblings test both boundaries '
+                  f'({sorted(want)}): a coordinate beyond the untested boundary stays outside the box and the known '
+                  f'optimum is not inside it', key=f'{rid}::{fn.short}::mirror-guard::{" ".join(ast.unparse(n.body[0]).split())[:60]}')
+
+
 def check(ctx: Ctx):
+    if C.want(ctx, 'R18.4'):
+        r18_4(ctx)
     ctx.rule('R18.1', 'per family, for all constructor arguments: len(names) = len(lower) = len(upper) = dimension; '
                       'lower < upper; one objective')
     ctx.rule('R18.2', 'known optimum inside the box: literal points directly, table-driven points over every row')
